@@ -27,6 +27,10 @@ def run(chk, tier):
         # R04.9 'each repeated by its exact count': every quantifier adds its count to what the chain has accumulated (the width of the slot range)
         B.quantify_arith(chk, F, 'R04.9', cfg)
         B.api_table(chk, F, 'R04.9.api', cfg)
+        # R04.10 'and it then gets that slot's response': inside a pattern's slot range the response is the segment that owns the call's
+        # position (greatest start <= k; a zero-count segment owns no slot) - the lookup shared with C02
+        from props.c02 import segment_lookup
+        segment_lookup(chk, F, 'R04.10', cfg)
         from props import ctor
         ctor.builder_constructors(chk, F, 'R04.0', cfg)
         efn, epaths, erows = E.eval_dyn_table(chk, F, 'R04.7.table', cfg)
